@@ -13,21 +13,52 @@ import (
 )
 
 const SchemaSDL = `
+directive @onField(x: Int) on FIELD
+directive @onQuery on QUERY
+interface Node {
+	id: Int!
+}
+enum Kind {
+	A
+	B
+}
+input Filter {
+	min: Int
+	tag: String!
+}
+union Result = User | Pet
 type Query {
 	name: String!
 	find(id: Int!): String!
 	user: User
+	node: Node
+	search(text: String, kind: Kind, filter: Filter, ids: [Int!]): [Result!]
+	flag(on: Boolean!): Boolean
+	ratio(f: Float): Float
 }
-type User {
+type User implements Node {
 	id: Int!
 	name: String!
 	friend: User
+}
+type Pet implements Node {
+	id: Int!
+	nick: String
 }
 type Mutation {
 	setName(v: String!): String!
 }
 type Subscription {
 	tick: Int!
+	tock: Int!
+}
+`
+
+// QueryOnlySDL is a schema without mutation and subscription roots (the only
+// way to violate the KnownRootType rule).
+const QueryOnlySDL = `
+type Query {
+	name: String!
 }
 `
 
@@ -52,6 +83,14 @@ type ES struct {
 func NewES() *ES {
 	return &ES{schema: gqlparser.MustLoadSchema(&ast.Source{Input: SchemaSDL})}
 }
+
+// NewQueryOnlyES serves QueryOnlySDL.
+func NewQueryOnlyES() *ES {
+	return &ES{schema: gqlparser.MustLoadSchema(&ast.Source{Input: QueryOnlySDL})}
+}
+
+// AST returns the schema without going through the (hookable) Schema method.
+func (e *ES) AST() *ast.Schema { return e.schema }
 
 func (e *ES) Schema() *ast.Schema {
 	if e.OnSchema != nil {
